@@ -1040,6 +1040,10 @@ func lshTerms(c *Ctx, lsh *ssa.Function, bitsField, msbField string) {
 			nStores++
 			want := map[string]bool{key(term{I, nF, false}): true}
 			src := I.add(q, -1)
+			if pf.hasEq(src, true) {
+				// the path has established i - q == 0 (case src == 0): the source word is word 0
+				src = linConst(0)
+			}
 			holds := func(f linForm) bool { // f > 0 on this path (a constant form decides itself)
 				if f.OK && len(f.Coef) == 0 {
 					return f.K > 0
@@ -1048,7 +1052,8 @@ func lshTerms(c *Ctx, lsh *ssa.Function, bitsField, msbField string) {
 			}
 			if holds(src.add(linConst(1), 1)) { // i-q >= 0
 				want[key(term{src, r, false})] = true
-				if holds(src) || holds(src.add(linConst(-1), 1).add(linConst(1), 1)) { // i-q-1 >= 0
+				// i-q-1 >= 0: i-q > 0, or i-q >= 0 together with i-q != 0 (the cases of a switch on src)
+				if holds(src) || holds(src.add(linConst(-1), 1).add(linConst(1), 1)) || pf.hasEq(src, false) {
 					want[key(term{src.add(linConst(-1), 1), linConst(64).add(r, -1), true})] = true
 				}
 			}
